@@ -101,7 +101,9 @@ class ADT(Native):
             if self.zone is not UTC:
                 zn = "LOCAL" if self.zone.name == f"LOCALFIXED@{self.inst}" else self.zone.name
                 c[zn] = c.get(zn, 0) + 1
-            return ADT(None, c, self.inst)
+            # the wall clock of an aware value carries fold=0 (astimezone() attaches a fixed offset, it does not set fold): a naive
+            # zone-dependent wall clock made from it is ambiguous in the hour the clocks go back; naive UTC has no such hour
+            return ADT(None, c, self.inst, fold_ok=not {k: v for k, v in c.items() if v})
         z = _zone_of(tz)
         if self.zone is None:
             # wall clock kept, zone attached: instant moves unless the wall clock already is t + off(z) at this instant
@@ -265,6 +267,30 @@ def rule_store_time_frames(ctx, rid):
                    f"(fold honoured), so this value denotes another instant than the file's mtime")
         else:
             ctx.ob(rid, f"{f.short}/frame", False, loc(f), f"get_modified_time of an existing path evaluates to {out!r}")
+    # ... and what the store *methods* built on those helpers hand to the stale check
+    from ..absval import Obj as _Obj
+    for cls in m.classes.values():
+        meth = cls.methods.get("get_modified_time")
+        if meth is None or not cls.module.name.startswith("uberjob.stores") or not meth.pos_params:
+            continue
+        if not any(h in m.callee_funcs(meth, c) for c in meth.own_calls() for h in helpers):
+            continue
+        n_ctor += 1
+        interp = Interp(m, ext=DT_EXT)
+        try:
+            out = interp.call_func(meth, None, [], {}, bound_self=_Obj(cls, {"path": "/some/path"}))
+        except AbsRaise as e:
+            raise AnalysisError(f"C18.Z3: evaluating {meth.qualname} raised {e.value!r}")
+        if isinstance(out, ADT):
+            kind, sh = out.frame()
+            ok = out.fold_ok and ((kind == "naive" and dict(sh) == {"LOCAL": 1}) or (kind == "aware" and not sh))
+            ctx.ob(rid, f"{meth.short}/frame", ok, loc(meth),
+                   f"{cls.name}.get_modified_time reports {out.describe()}" if ok else
+                   f"{cls.name}.get_modified_time reports {out.describe()}" + ("" if out.fold_ok else " whose fold is always 0 (made from an aware value "
+                   "by dropping the zone)") + ": the stale check reads naive values as local time (fold honoured), so in the hour the clocks "
+                   "go back this value denotes another instant than the file's mtime")
+        else:
+            ctx.ob(rid, f"{meth.short}/frame", False, loc(meth), f"get_modified_time of an existing path evaluates to {out!r}")
     for f in m.funcs.values():
         if not f.module.name.startswith("uberjob.stores"):
             continue
